@@ -23,6 +23,18 @@ Theorem C18_frames : forall (complete : list N -> bool) (k : rpckind) (w rc : na
 Proof. exact frames_now_lemma. Qed.
 Print Assumptions C18_frames.
 
+(* A connection that ends after t bytes: the reading codec returns exactly the frames
+   that arrived whole, then the clean end (cut between two frames) or an error (cut
+   inside a frame) — never a fabricated or partial frame. *)
+Theorem C18_truncated : forall (complete : list N -> bool) (k : rpckind) (rc : nat) (sc : list nat)
+    (frames : list (list (list N))) (t : nat),
+  Forall (conforms complete (shape_of k)) frames ->
+  read_all complete (rawmark_of k) (shape_of k) rc sc
+    (firstn t (concat (map (@concat N) frames)))
+  = (firstn (fst (whole t frames)) frames, if snd (whole t frames) then None else Some EEof).
+Proof. exact truncated_lemma. Qed.
+Print Assumptions C18_truncated.
+
 (* The same for either way of reading the array descriptor, provided it goes through the
    Decoder or the Decoder never reads ahead (ReaderBufferSize = 0): this is why the
    default configuration worked before fix F18-1. *)
